@@ -20,3 +20,201 @@ Example C07_nonvacuous :
   let d := fst (run (init_db 1) [OBegin [0%nat]; OInsert 0 (mkP [97] 1 [] [] [] []); OChanges 1 0; OCommit 0]) in
   snd (step d (ONext 1 SFresh None)) = OutChanges [(mkO (mkP [97] 1 [] [] [] []) 1, false)] true.
 Proof. vm_compute. reflexivity. Qed.
+
+(* ======================================================================================================
+   Second layer (Table/ChangesStream.v, ChangesIter.v, ChangesProofs.v, ChangesHist.v).
+   Vocabulary: `delivered iid d ops` = everything iterator iid is handed by the Next / Resume steps of a
+   run; `replay` folds it (update sets pk -> (val, rev), delete removes pk); `abs_of t` = the objects and
+   revisions of table t; `grun` threads the ghost "table last refreshed from"; `good_run c` = what the
+   caller owes per Next: the snapshot is a later-or-equal state (tab_le) of the previous one, satisfies the
+   table invariant and has revision room, and (c = true) its graveyard has retained what the iterator may
+   still need (`retained`, property C08). `fresh_*` theorems discharge all of that for iterators advanced
+   with fresh read transactions (or the current write transaction) after the creating transaction
+   committed, from `ok_run` (TInv + revision room in every state of the run: Table/Inv.v).
+   Known exclusion K4 (Changes after a delete in the same transaction, then Next(that transaction)):
+   Table/ChangesProofs.v changes_after_delete_refuted; excluded here by tab_le / `friendly`.
+   ====================================================================================================== *)
+From SV Require Import KeyEnc.Model Table.InvDefs Table.Inv Table.ChangesStream Table.ChangesIter
+                       Table.ChangesProofs Table.ChangesRet Table.ChangesHist.
+From Coq Require Import Permutation.
+
+(* LowerBound(ByRevision(r)) = exactly the live objects with revision >= r, strictly ascending *)
+Theorem C07_update_stream_exact : forall t, TInv t -> rev_bound t -> forall r, r < B64 ->
+  asc (map o_rev (upd_stream t r)) /\ forall o, In o (upd_stream t r) <-> live t o /\ r <= o_rev o.
+Proof. exact upd_stream_spec. Qed.
+Print Assumptions C07_update_stream_exact.
+
+(* the graveyard-revision index from r = exactly the retained deletions with revision >= r, ascending *)
+Theorem C07_delete_stream_exact : forall t, TInv t -> rev_bound t -> forall r, r < B64 ->
+  asc (map o_rev (del_stream t r)) /\ forall o, In o (del_stream t r) <-> dead t o /\ r <= o_rev o.
+Proof. exact del_stream_spec. Qed.
+Print Assumptions C07_delete_stream_exact.
+
+(* dualIterator: the merge of two ascending streams with disjoint revisions is strictly ascending ... *)
+Theorem C07_merge_strictly_ascending : forall f dels upds, (length dels + length upds <= f)%nat ->
+  asc (map o_rev dels) -> asc (map o_rev upds) ->
+  (forall d u, In d dels -> In u upds -> o_rev d <> o_rev u) ->
+  asc (map crev (merge_streams f dels upds)).
+Proof. exact merge_asc. Qed.
+Print Assumptions C07_merge_strictly_ascending.
+
+(* ... and a permutation of the tagged union *)
+Theorem C07_merge_is_union : forall f dels upds, (length dels + length upds <= f)%nat ->
+  Permutation (merge_streams f dels upds) (tag true dels ++ tag false upds).
+Proof. exact merge_perm. Qed.
+Print Assumptions C07_merge_is_union.
+
+(* refresh against committed table S: the pending stream is, strictly ascending, exactly the retained
+   deletions above the delete cursor and the live objects above the update cursor *)
+Theorem C07_refresh_exact : forall S it, TInv S -> rev_bound S ->
+  it_rev it + 1 < B64 -> it_delrev it + 1 < B64 ->
+  exists l, it_pending (refresh S it) = Some l /\ pend_spec l S (it_rev it) (it_delrev it) /\
+    Permutation l (tag true (del_stream S (it_delrev it + 1)) ++ tag false (upd_stream S (it_rev it + 1))).
+Proof. exact refresh_spec. Qed.
+Print Assumptions C07_refresh_exact.
+
+(* strictly increasing revisions across ALL Next / Resume calls of any run *)
+Theorem C07_strictly_increasing : forall d iid tab t0 ops,
+  created d iid tab t0 -> TInv t0 -> rev_room t0 ->
+  let d0 := fst (step d (OChanges iid tab)) in
+  good_run false iid (t0, []) d0 ops ->
+  asc (map crev (delivered iid d0 ops)).
+Proof. exact changes_strictly_increasing. Qed.
+Print Assumptions C07_strictly_increasing.
+
+(* convergence: whenever the iterator is exhausted, the replay of everything delivered since creation
+   is exactly the table of the snapshot last handed to Next *)
+Theorem C07_converges : forall d iid tab t0 ops,
+  created d iid tab t0 -> TInv t0 -> rev_room t0 ->
+  let d0 := fst (step d (OChanges iid tab)) in
+  good_run true iid (t0, []) d0 ops ->
+  forall it, assoc iid (d_iters (fst (run d0 ops))) = Some it -> it_pending it = None ->
+  replay (delivered iid d0 ops) = abs_of (fst (grun iid (t0, []) d0 ops)).
+Proof. exact changes_converge. Qed.
+Print Assumptions C07_converges.
+
+Theorem C07_converges_at_next : forall d iid tab t0 ops s S,
+  created d iid tab t0 -> TInv t0 -> rev_room t0 ->
+  let d0 := fst (step d (OChanges iid tab)) in
+  good_run true iid (t0, []) d0 (ops ++ [ONext iid s None]) ->
+  next_source (fst (run d0 ops)) iid s = Some S ->
+  replay (delivered iid d0 (ops ++ [ONext iid s None])) = abs_of S.
+Proof. exact changes_converge_next. Qed.
+Print Assumptions C07_converges_at_next.
+
+(* partially consumed sequences lose nothing *)
+Theorem C07_partial_consumption : forall d iid tab t0 ops,
+  created d iid tab t0 -> TInv t0 -> rev_room t0 ->
+  let d0 := fst (step d (OChanges iid tab)) in
+  good_run true iid (t0, []) d0 ops ->
+  forall it, assoc iid (d_iters (fst (run d0 ops))) = Some it ->
+  let G := fst (grun iid (t0, []) d0 ops) in
+  (forall o, live G o -> o_rev o <= it_rev it ->
+             om_get (pk o) (replay (delivered iid d0 ops)) = Some (p_val (o_data o), o_rev o)) /\
+  (it_seq it = true -> forall l, it_pending it = Some l -> forall o b,
+     In (o, b) l <-> (if b then dead G o /\ it_delrev it < o_rev o else live G o /\ it_rev it < o_rev o)).
+Proof. exact changes_partial. Qed.
+Print Assumptions C07_partial_consumption.
+
+(* only committed changes: what Next hands out is in the committed root of its source ... *)
+Theorem C07_delivers_only_committed : forall d iid s take it S d' l w,
+  assoc iid (d_iters d) = Some it -> next_source d iid s = Some S ->
+  TInv S -> rev_bound S -> it_rev it + 1 < B64 -> it_delrev it + 1 < B64 ->
+  step d (ONext iid s take) = (d', OutChanges l w) ->
+  forall o b, In (o, b) l ->
+    if b then dead S o /\ it_delrev it < o_rev o else live S o /\ it_rev it < o_rev o.
+Proof. exact next_delivers_committed. Qed.
+Print Assumptions C07_delivers_only_committed.
+
+(* ... and does not depend on the open write transaction's uncommitted entries at all *)
+Theorem C07_ignores_uncommitted : forall d iid s take es es' old,
+  d_txn d = Some (es, old) ->
+  step (set_txn d (Some (es', old))) (ONext iid s take) =
+  (set_txn (fst (step d (ONext iid s take))) (Some (es', old)), snd (step d (ONext iid s take))).
+Proof. exact next_ignores_uncommitted. Qed.
+Print Assumptions C07_ignores_uncommitted.
+
+(* the watch channel of an exhausted iterator: closed exactly when the committed table revision differs
+   from the one last refreshed from; open = nothing delivered, nothing changed *)
+Theorem C07_watch_closed_iff_changed : forall d iid s take it r t cur,
+  assoc iid (d_iters d) = Some it -> src_committed d s = Some r ->
+  nth_error r (it_tab it) = Some t -> nth_error (d_root d) (it_tab it) = Some cur ->
+  it_pending it = None ->
+  (t_rev cur <> it_watchrev it <-> exists l, snd (step d (ONext iid s take)) = OutChanges l true) /\
+  (t_rev cur = it_watchrev it <-> step d (ONext iid s take) = (d, OutChanges [] false)).
+Proof. exact next_watch_closed_iff_changed. Qed.
+Print Assumptions C07_watch_closed_iff_changed.
+
+(* discharged: iterators advanced with fresh read transactions after the creating transaction committed *)
+Theorem C07_fresh_strictly_increasing : forall iid tab d t0 ops,
+  created d iid tab t0 -> wf d ->
+  (forall cur, nth_error (d_root d) tab = Some cur -> ~ reg iid cur) ->
+  tables_ok d /\ ok_run (fst (step d (OChanges iid tab))) ops ->
+  friendly_run iid tab (fst (step d (OChanges iid tab))) ops ->
+  asc (map crev (delivered iid (fst (step d (OChanges iid tab))) ops)).
+Proof. exact fresh_strictly_increasing. Qed.
+Print Assumptions C07_fresh_strictly_increasing.
+
+Theorem C07_fresh_converges : forall iid tab d t0 ops s S,
+  created d iid tab t0 -> wf d ->
+  (forall cur, nth_error (d_root d) tab = Some cur -> ~ reg iid cur) ->
+  let d0 := fst (step d (OChanges iid tab)) in
+  tables_ok d /\ ok_run d0 (ops ++ [ONext iid s None]) ->
+  friendly_run iid tab d0 (ops ++ [ONext iid s None]) ->
+  next_source (fst (run d0 ops)) iid s = Some S ->
+  replay (delivered iid d0 (ops ++ [ONext iid s None])) = abs_of S.
+Proof. exact fresh_converge_next. Qed.
+Print Assumptions C07_fresh_converges.
+
+Theorem C07_fresh_converges_whenever_exhausted : forall iid tab d t0 ops,
+  created d iid tab t0 -> wf d ->
+  (forall cur, nth_error (d_root d) tab = Some cur -> ~ reg iid cur) ->
+  tables_ok d /\ ok_run (fst (step d (OChanges iid tab))) ops ->
+  friendly_run iid tab (fst (step d (OChanges iid tab))) ops ->
+  forall it, assoc iid (d_iters (fst (run (fst (step d (OChanges iid tab))) ops))) = Some it ->
+  it_pending it = None ->
+  replay (delivered iid (fst (step d (OChanges iid tab))) ops) =
+  abs_of (fst (grun iid (t0, []) (fst (step d (OChanges iid tab))) ops)).
+Proof. exact fresh_converge. Qed.
+Print Assumptions C07_fresh_converges_whenever_exhausted.
+
+(* from the initial database: the table invariant and the structural invariant are discharged
+   (Table/Inv2.v DInv_step, Table/ChangesHist.v wf_run); the remaining hypotheses are revision room in
+   every state of the run (no uint64 overflow) and the usage conditions `friendly` *)
+From SV Require Import Table.ChangesFromInit.
+
+Theorem C07_from_init_strictly_increasing : forall n pre iid tab t0 ops,
+  room_run (init_db n) (pre ++ OChanges iid tab :: ops) ->
+  created (fst (run (init_db n) pre)) iid tab t0 ->
+  (forall cur, nth_error (d_root (fst (run (init_db n) pre))) tab = Some cur -> ~ reg iid cur) ->
+  friendly_run iid tab (fst (step (fst (run (init_db n) pre)) (OChanges iid tab))) ops ->
+  asc (map crev (delivered iid (fst (step (fst (run (init_db n) pre)) (OChanges iid tab))) ops)).
+Proof. exact init_strictly_increasing. Qed.
+Print Assumptions C07_from_init_strictly_increasing.
+
+Theorem C07_from_init_converges : forall n pre iid tab t0 ops s S,
+  let d := fst (run (init_db n) pre) in
+  let d0 := fst (step d (OChanges iid tab)) in
+  room_run (init_db n) (pre ++ OChanges iid tab :: ops ++ [ONext iid s None]) ->
+  created d iid tab t0 ->
+  (forall cur, nth_error (d_root d) tab = Some cur -> ~ reg iid cur) ->
+  friendly_run iid tab d0 (ops ++ [ONext iid s None]) ->
+  next_source (fst (run d0 ops)) iid s = Some S ->
+  replay (delivered iid d0 (ops ++ [ONext iid s None])) = abs_of S.
+Proof. exact init_converge_next. Qed.
+Print Assumptions C07_from_init_converges.
+
+(* the hypotheses are satisfiable on a run with partial consumption, resume, a collection scan,
+   re-insert + re-delete, and the apply of the stale scan *)
+Example C07_from_init_nonvacuous :
+  let d := fst (run (init_db 1) ex_pre) in
+  let d0 := fst (step d (OChanges 7 0)) in
+  let all := ex_ops ++ [ONext 7 SFresh None] in
+  room_run (init_db 1) (ex_pre ++ OChanges 7 0 :: all) /\
+  (exists t0, created d 7 0 t0) /\
+  (forall cur, nth_error (d_root d) 0 = Some cur -> ~ reg 7 cur) /\
+  friendly_run 7 0 d0 all /\
+  (exists S, next_source (fst (run d0 ex_ops)) 7 SFresh = Some S) /\
+  length (delivered 7 d0 all) = 5%nat /\
+  replay (delivered 7 d0 all) = [([98], (5, 4))].
+Proof. exact fresh_hypotheses_satisfiable. Qed.
